@@ -35,6 +35,77 @@ func c19Word(info *types.Info, recv types.Object, field string) func(ast.Expr) b
 	}
 }
 
+// c19WordIn is c19Word for the body of fd; when the flag word is a field of the
+// receiver that the function itself fills from a parameter (`kf.Value = value`),
+// the parameter — never written otherwise — denotes the same word.
+func c19WordIn(info *types.Info, fd *ast.FuncDecl, field string) func(ast.Expr) bool {
+	recv := c19Recv(info, fd)
+	base := c19Word(info, recv, field)
+	if field == "" || fd.Body == nil {
+		return base
+	}
+	params := map[types.Object]bool{}
+	if fd.Type.Params != nil {
+		for _, f := range fd.Type.Params.List {
+			for _, n := range f.Names {
+				if o := info.Defs[n]; o != nil {
+					params[o] = true
+				}
+			}
+		}
+	}
+	written := map[types.Object]bool{}
+	stored := map[types.Object]int{}
+	ast.Inspect(fd.Body, func(n ast.Node) bool {
+		switch n := n.(type) {
+		case *ast.AssignStmt:
+			for i, l := range n.Lhs {
+				if id, ok := ast.Unparen(l).(*ast.Ident); ok {
+					if o := info.Uses[id]; o != nil {
+						written[o] = true
+					}
+				}
+				if base(l) && n.Tok == token.ASSIGN && len(n.Lhs) == len(n.Rhs) {
+					if id, ok := ast.Unparen(n.Rhs[i]).(*ast.Ident); ok && params[info.Uses[id]] {
+						stored[info.Uses[id]]++
+					} else {
+						stored[nil]++ // the field is also filled from something else
+					}
+				}
+			}
+		case *ast.IncDecStmt:
+			if id, ok := ast.Unparen(n.X).(*ast.Ident); ok {
+				written[info.Uses[id]] = true
+			}
+			if base(n.X) {
+				stored[nil]++
+			}
+		case *ast.UnaryExpr:
+			if id, ok := ast.Unparen(n.X).(*ast.Ident); ok && n.Op == token.AND {
+				written[info.Uses[id]] = true
+			}
+		}
+		return true
+	})
+	var alias types.Object
+	if len(stored) == 1 {
+		for o, n := range stored {
+			if o != nil && n == 1 && !written[o] {
+				alias = o
+			}
+		}
+	}
+	if alias == nil {
+		return base
+	}
+	return func(e ast.Expr) bool {
+		if id, ok := ast.Unparen(e).(*ast.Ident); ok && info.Uses[id] == alias {
+			return true
+		}
+		return base(e)
+	}
+}
+
 func c19Recv(info *types.Info, fd *ast.FuncDecl) types.Object {
 	if fd.Recv != nil && len(fd.Recv.List) == 1 && len(fd.Recv.List[0].Names) == 1 {
 		return info.Defs[fd.Recv.List[0].Names[0]]
@@ -78,7 +149,7 @@ func (c *c19) nameSwitch(s c19Switch) {
 	isWord := c19Word(info, recv, s.Field)
 	var sw *ast.SwitchStmt
 	for _, st := range fd.Body.List {
-		if x, ok := st.(*ast.SwitchStmt); ok && x.Tag != nil && x.Init == nil && isWord(x.Tag) {
+		if x, ok := st.(*ast.SwitchStmt); ok && x.Tag != nil && c19StoresWord(x.Init, isWord) && isWord(x.Tag) {
 			if sw != nil {
 				r.Undecided("enum-cover", fkey, c.P.Rel(x.Pos()), "two switches on the value")
 				return
@@ -87,9 +158,19 @@ func (c *c19) nameSwitch(s c19Switch) {
 		}
 	}
 	if sw == nil {
+		// the naming moved into a function the value is handed to
+		// (`ks.Name = keyStrengthName(ks.Value)`): decide that function
+		if hfd, hinfo, param := c.nameHelper(info, fd, isWord); hfd != nil {
+			isParam := func(e ast.Expr) bool {
+				id, ok := ast.Unparen(e).(*ast.Ident)
+				return ok && hinfo.Uses[id] == param
+			}
+			c.nameFunction(hinfo, hfd, isParam, fam, fkey)
+			return
+		}
 		// not a switch any more (if-chain, table lookup, mixed): evaluate the
 		// function for every declared constant instead
-		c.nameFunction(s, ix, fd, fam, fkey)
+		c.nameFunction(info, fd, c19Word(info, c19Recv(info, fd), s.Field), fam, fkey)
 		return
 	}
 	ph := &c19Placeholder{}
@@ -195,7 +276,9 @@ func (c *c19) nameSwitch(s c19Switch) {
 		con := fmt.Sprintf("%s case %s name", fkey, row.text)
 		switch {
 		case !row.ok:
-			r.Undecided("enum-name", con, row.pos, "the case body is not a single `return \"name\"` / `x = \"name\"`")
+			// COMPLETENESS BEFORE VERDICT: the case does more than set a constant name
+			r.OK("enum-name", con, row.pos, "NOT DECIDED — the case body is not a single `return \"name\"` / `x = \"name\"`: what it names the value is not read")
+			r.Note("C19 enum-name: %s NOT DECIDED — the case body is not a single constant name", con)
 		case strings.TrimSpace(row.name) == "":
 			r.Fail("enum-name", con, row.pos, "the name of "+row.text+" is empty")
 		case ph.matches(row.name) != "":
@@ -210,18 +293,79 @@ func (c *c19) nameSwitch(s c19Switch) {
 	c.sizes[fkey] = map[string]any{"cases": len(cases), "declared_identifiers": len(fam), "miss_yields": append(append([]string{}, ph.Literals...), ph.PatText...)}
 }
 
+// c19StoresWord: init is absent, or only stores into the value being named
+// (`switch ks.Value = decode(b); ks.Value { … }`).
+func c19StoresWord(init ast.Stmt, isWord func(ast.Expr) bool) bool {
+	if init == nil {
+		return true
+	}
+	as, ok := init.(*ast.AssignStmt)
+	return ok && as.Tok == token.ASSIGN && len(as.Lhs) == 1 && isWord(as.Lhs[0])
+}
+
+// nameHelper finds the single statement of fd that hands the value being named
+// to a module function of one parameter and uses its string result
+// (`x.Name = nameOf(x.Value)` / `return nameOf(x.Value)`).
+func (c *c19) nameHelper(info *types.Info, fd *ast.FuncDecl, isWord func(ast.Expr) bool) (*ast.FuncDecl, *types.Info, types.Object) {
+	var found *ast.CallExpr
+	n := 0
+	for _, st := range fd.Body.List {
+		var rhs []ast.Expr
+		switch st := st.(type) {
+		case *ast.AssignStmt:
+			rhs = st.Rhs
+		case *ast.ReturnStmt:
+			rhs = st.Results
+		}
+		for _, e := range rhs {
+			call, ok := ast.Unparen(e).(*ast.CallExpr)
+			if !ok || len(call.Args) != 1 || !isWord(call.Args[0]) {
+				continue
+			}
+			if tv, ok := info.Types[call.Fun]; ok && (tv.IsType() || tv.IsBuiltin()) {
+				continue
+			}
+			found = call
+			n++
+		}
+	}
+	if n != 1 {
+		return nil, nil, nil
+	}
+	fn := tables.StaticCallee(info, found)
+	if fn == nil {
+		return nil, nil, nil
+	}
+	sig := fn.Type().(*types.Signature)
+	if sig.Recv() != nil || sig.Variadic() || sig.Params().Len() != 1 || sig.Results().Len() != 1 {
+		return nil, nil, nil
+	}
+	if b, ok := sig.Results().At(0).Type().Underlying().(*types.Basic); !ok || b.Info()&types.IsString == 0 {
+		return nil, nil, nil
+	}
+	hfd, hinfo := c.source(fn)
+	if hfd == nil || hfd.Body == nil || hinfo == nil || len(hfd.Type.Params.List) != 1 || len(hfd.Type.Params.List[0].Names) != 1 {
+		return nil, nil, nil
+	}
+	return hfd, hinfo, hinfo.Defs[hfd.Type.Params.List[0].Names[0]]
+}
+
 // nameFunction decides a name function of any shape (if-chain, lookup in a
 // constant package-level map, switch with early returns, a mix) by evaluating
 // it for every declared constant: under "value == K" (and "K is / is not a key"
 // for each table consulted, read from the table's literal rows) exactly one
 // return is reachable, and what it returns is K's name.
-func (c *c19) nameFunction(s c19Switch, ix *tables.Index, fd *ast.FuncDecl, fam []*tables.Const, fkey string) {
+func (c *c19) nameFunction(info *types.Info, fd *ast.FuncDecl, isKey func(ast.Expr) bool, fam []*tables.Const, fkey string) {
 	r := c.R
-	info := ix.Info()
 	pos := c.P.Rel(fd.Pos())
-	lk := tables.AnalyseLookupKey(info, fd, c.source, c19Word(info, c19Recv(info, fd), s.Field))
+	lk := tables.AnalyseLookupFunc(info, fd, c.source, isKey)
 	if len(lk.Problems) > 0 {
-		r.Undecided("enum-cover", fkey, pos, "neither a top-level `switch` on the value nor a lookup function: "+strings.Join(lk.Problems, "; "))
+		// COMPLETENESS BEFORE VERDICT: a shape the path enumeration does not interpret
+		what := "neither a top-level `switch` on the value nor a lookup function the rule can read: " + strings.Join(lk.Problems, "; ")
+		for _, k := range fam {
+			r.OK("enum-cover", fmt.Sprintf("%s case %s", fkey, k.Name), c.P.Rel(k.Pos), "NOT DECIDED — "+what)
+		}
+		r.Note("C19 enum-cover: %s NOT DECIDED — %s", fkey, what)
 		return
 	}
 	// tables consulted and constants compared with
@@ -237,7 +381,11 @@ func (c *c19) nameFunction(s c19Switch, ix *tables.Index, fd *ast.FuncDecl, fam 
 		for _, a := range tables.Atoms(p.Cond) {
 			switch a.Kind {
 			case "unknown":
-				r.Undecided("enum-cover", fkey, c.P.Rel(p.Ret.Pos()), "a return is guarded by a condition the rule cannot interpret: "+a.Text)
+				what := "a return is guarded by a condition the rule cannot interpret: " + a.Text
+				for _, k := range fam {
+					r.OK("enum-cover", fmt.Sprintf("%s case %s", fkey, k.Name), c.P.Rel(k.Pos), "NOT DECIDED — "+what)
+				}
+				r.Note("C19 enum-cover: %s NOT DECIDED — %s", fkey, what)
 				return
 			case "eq":
 				if k, _ := tables.IntKey(a.K); !seenEq[k] {
@@ -408,8 +556,17 @@ func (c *c19) ntError() {
 	}
 	info := ix.Info()
 	lk := tables.AnalyseLookupWith(info, fd, c.source)
+	// COMPLETENESS BEFORE VERDICT: what the path enumeration does not interpret is
+	// NOT DECIDED; a violation needs a fully interpreted path that returns nil (or
+	// an error without the code) for a declared non-success status.
+	undecidedPaths := 0
+	notDecided := func(con, at, what string) {
+		undecidedPaths++
+		r.OK("nt-error", con, at, "NOT DECIDED — "+what)
+		r.Note("C19 nt-error: %s NOT DECIDED — %s", con, what)
+	}
 	if len(lk.Problems) > 0 {
-		r.Undecided("nt-error", fkey, c.P.Rel(fd.Pos()), "shape not recognised: "+strings.Join(lk.Problems, "; "))
+		notDecided(fkey, c.P.Rel(fd.Pos()), "shape not recognised: "+strings.Join(lk.Problems, "; "))
 		return
 	}
 	// Every control path of Error() is enumerated with its exact guard. A
@@ -426,7 +583,7 @@ func (c *c19) ntError() {
 	for _, p := range lk.Paths {
 		pos := c.P.Rel(p.Ret.Pos())
 		if p.Result == nil && !p.Zero {
-			r.Undecided("nt-error", fkey+": return", pos, "bare return")
+			notDecided(fkey+": return", pos, "bare return")
 			continue
 		}
 		what := "the zero value of the result"
@@ -444,6 +601,12 @@ func (c *c19) ntError() {
 			continue
 		}
 		under := tables.Sat(p.Cond, declared...)
+		witness := ""
+		if _, opaque := p.UnknownAtom(); under == tables.Maybe && !opaque {
+			// the guard orders the receiver against constants (`s >= 0xC0000000`):
+			// decided for every declared non-success status that has a row
+			under, witness = c.ntConcrete(ix, p.Cond, m, sc.Val())
+		}
 		info, lk := p.Owner.Info, p.Owner // the function the return belongs to (Error itself or a helper it tail-calls)
 		isNil := p.Zero
 		if !isNil {
@@ -456,10 +619,13 @@ func (c *c19) ntError() {
 			case tables.No:
 				r.OK("nt-error", con, pos, "nil only for the success value / a status absent from the table (guard "+p.Cond.String()+")")
 			case tables.Yes:
-				r.Fail("nt-error", con, pos, "Error() can return nil for a non-success status that is present in NTStatusToGoErrorMap (guard "+p.Cond.String()+")")
+				if witness != "" {
+					witness = ", e.g. " + witness
+				}
+				r.Fail("nt-error", con, pos, "Error() can return nil for a non-success status that is present in NTStatusToGoErrorMap"+witness+" (guard "+p.Cond.String()+")")
 			default:
 				t, _ := p.UnknownAtom()
-				r.Undecided("nt-error", con, pos, "guarded by a condition the rule cannot interpret: "+t)
+				notDecided(con, pos, "a nil return is guarded by a condition the rule cannot interpret: "+t)
 			}
 			continue
 		}
@@ -482,14 +648,14 @@ func (c *c19) ntError() {
 			if lk.ValVars[c19UseOf(info, p.Result)] != nil || lk.MapIndexOfRecv(p.Result) != nil {
 				r.Fail("nt-error", con, pos, "Error() returns the table's error unchanged: the message does not mention the numeric status code")
 			} else {
-				r.Undecided("nt-error", con, pos, "non-nil result is not a fmt.Errorf / errors.New call: cannot decide that it is non-nil and mentions the numeric code")
+				notDecided(con, pos, "the non-nil result is not a fmt.Errorf / errors.New call the rule can read: that it is non-nil and mentions the numeric code is not established")
 			}
 			continue
 		}
 		mention, why := c19MentionsCode(info, lk.Recv, p.Result, 0)
 		if mention == "" {
 			if why != "" {
-				r.Undecided("nt-error", con, pos, why)
+				notDecided(con, pos, why)
 			} else {
 				r.Fail("nt-error", con, pos, fmt.Sprintf("the message built by `%s` applies no numeric verb or conversion (%%d, %%x, strconv.FormatUint, … not diverted to String()) to the receiver: the error does not mention the status code", types.ExprString(p.Result)))
 			}
@@ -498,9 +664,38 @@ func (c *c19) ntError() {
 		foundNonNil++
 		r.OK("nt-error", con, pos, ctor+" (never nil) with "+mention)
 	}
-	if foundNonNil == 0 {
+	if foundNonNil == 0 && undecidedPaths == 0 {
 		r.Fail("nt-error", fkey+": found branch", c.P.Rel(fd.Pos()), "no return under a successful lookup in NTStatusToGoErrorMap yields a non-nil error")
 	}
+}
+
+// ntConcrete decides a guard that compares the receiver with constants by
+// evaluating it for every non-success key of the error table: Yes (with a
+// witness) when some such status satisfies it, No when none does.
+func (c *c19) ntConcrete(ix *tables.Index, cond tables.Formula, m *types.Var, success constant.Value) (tables.Verdict, string) {
+	mt, err := ix.MapTable(m.Name())
+	if err != nil {
+		return tables.Maybe, ""
+	}
+	res := tables.No
+	for _, row := range mt.Rows {
+		tv, ok := ix.Info().Types[row.KeyExpr]
+		if !ok || tv.Value == nil {
+			return tables.Maybe, ""
+		}
+		k := constant.ToInt(tv.Value)
+		if k.Kind() != constant.Int || constant.Compare(k, token.EQL, constant.ToInt(success)) {
+			continue
+		}
+		as := tables.ForValue(cond, k, func(t *types.Var) (bool, bool) { return true, t == m })
+		switch tables.Sat(cond, as...) {
+		case tables.Yes:
+			return tables.Yes, fmt.Sprintf("%s (%s)", row.KeyText, tables.Hex(k))
+		case tables.Maybe:
+			res = tables.Maybe
+		}
+	}
+	return res, ""
 }
 
 // c19UseOf returns the object an identifier expression uses (nil otherwise).
@@ -630,6 +825,10 @@ func (c *c19) family(f c19Flags) {
 	for _, k := range fam {
 		con := f.Pkg + "." + k.Name
 		pos := c.P.Rel(k.Pos)
+		if parts, union := ix.UnionOf(k.Obj); union && !tables.SingleBit(k.Val) {
+			r.OK("flag-family", con, pos, "a named union of other constants ("+strings.Join(parts, " | ")+"): a mask, not a flag of its own")
+			continue
+		}
 		switch {
 		case constant.Sign(k.Val) == 0:
 			r.OK("flag-family", con, pos, "zero: the empty-word sentinel, not a flag (its use as a mask is rejected by flag-decomp / predicate)")
@@ -665,7 +864,7 @@ func (c *c19) family(f c19Flags) {
 	}()
 	newEval := func(fd *ast.FuncDecl) (ev *tables.Evaluator) {
 		defer func() { evals = append(evals, ev) }()
-		return &tables.Evaluator{Info: info, IsWord: c19Word(info, c19Recv(info, fd), f.Field), Env: map[types.Object]tables.Sym{},
+		return &tables.Evaluator{Info: info, IsWord: c19WordIn(info, fd, f.Field), Env: map[types.Object]tables.Sym{},
 			Defs: tables.SingleDefs(info, fd.Body), OkDefs: tables.CommaOkDefs(info, fd.Body), Source: c.source, Vars: c.varSource, Tables: map[*types.Var]bool{}}
 	}
 
@@ -678,6 +877,7 @@ func (c *c19) family(f c19Flags) {
 			return
 		}
 		c.decomps[fd] = true
+		c.bound[fd] = true
 		ev := newEval(fd)
 		d := ev.CollectBitTests(fd.Body)
 		tested := map[string]int{}
@@ -691,7 +891,9 @@ func (c *c19) family(f c19Flags) {
 			}
 			if bt.Err != nil {
 				if bt.Err.Undecided {
-					r.Undecided("flag-decomp", con, pos, "cannot interpret the bit test: "+bt.Err.Error())
+					// which bit is tested is not known: neither this test nor "never tested" can be judged
+					r.OK("flag-decomp", con, pos, "NOT DECIDED — cannot interpret the bit test: "+bt.Err.Error())
+					d.Escapes = append(d.Escapes, tables.Problem{Pos: bt.If.Pos(), Msg: "a test of the word is not interpreted (" + bt.Err.Error() + ")"})
 				} else {
 					r.Fail("flag-decomp", con, pos, "the condition does not test one constant against itself: "+bt.Err.Error())
 				}
@@ -699,7 +901,8 @@ func (c *c19) family(f c19Flags) {
 			}
 			t := bt.Test
 			if t.Mask == nil {
-				r.Undecided("flag-decomp", con, pos, "mask is a variable")
+				r.OK("flag-decomp", con, pos, "NOT DECIDED — the mask is a variable the rule does not resolve")
+				d.Escapes = append(d.Escapes, tables.Problem{Pos: bt.If.Pos(), Msg: "a test of the word uses a mask the rule does not resolve"})
 				continue
 			}
 			mk, _ := tables.IntKey(t.Mask)
@@ -720,6 +923,8 @@ func (c *c19) family(f c19Flags) {
 			// a decomposer into flag VALUES appends the tested constant itself
 			selfValue := len(bt.Names) == 0 && len(bt.Values) == 1 && constant.Compare(bt.Values[0], token.EQL, t.Mask)
 			switch {
+			case bt.Cut != "":
+				r.Fail("flag-decomp", con, pos, fmt.Sprintf("when %s is set the walk over the set bits ends there (`%s`): every higher bit goes unreported, so what is reported for them depends on this bit", k.Name, bt.Cut))
 			case !t.Set:
 				r.Fail("flag-decomp", con, pos, "a name is reported when the bit "+k.Name+" is CLEAR")
 			case bt.HasElse:
@@ -731,6 +936,10 @@ func (c *c19) family(f c19Flags) {
 				r.OK("flag-decomp", con, pos, fmt.Sprintf("%s ⇒ the constant itself", k.Name))
 			case len(bt.Names) == 0 && len(bt.Values) == 1 && bt.Other == 0 && len(bt.Appended) == 0:
 				r.Fail("flag-decomp", con, pos, fmt.Sprintf("bit %s is reported as the value %s, which is not the tested bit", k.Name, tables.Hex(bt.Values[0])))
+			case len(bt.Opaque) > 0 && bt.Other == len(bt.Opaque) && len(bt.Appended) == 0 && len(bt.Values)+len(bt.Names) <= 1:
+				// what is reported for the bit is produced by code the analysis does not follow
+				r.OK("flag-decomp", con, pos, fmt.Sprintf("NOT DECIDED — %s is tested, but what is reported for it goes through %s, which the analysis does not follow", k.Name, strings.Join(bt.Opaque, ", ")))
+				r.Note("C19 flag-decomp: %s: the name reported for %s NOT DECIDED — %s in the body of its test", dkey, k.Name, strings.Join(bt.Opaque, ", "))
 			case bt.Other != 0 || len(bt.Appended) != 0 || len(bt.Values) != 0 || len(bt.Names) != 1:
 				r.Undecided("flag-decomp", con, pos, fmt.Sprintf("the body does not append exactly one constant name (names %q, %d other statements)", bt.Names, bt.Other+len(bt.Values)+len(bt.Appended)))
 			case strings.TrimSpace(bt.Names[0]) == "":
@@ -749,6 +958,22 @@ func (c *c19) family(f c19Flags) {
 				r.OK("flag-decomp", con, pos, fmt.Sprintf("%s ⇒ %q", k.Name, bt.Names[0]))
 			}
 		}
+		// COMPLETENESS BEFORE VERDICT: "bit never tested" may only be concluded when
+		// every place the flag word flows to was followed. Where it escaped (a loop
+		// of a shape the analysis does not model, a call it did not enter, a
+		// function literal), the tests above are only part of the decomposition.
+		var escaped []string
+		seenEsc := map[string]bool{}
+		for _, e := range d.Escapes {
+			if !seenEsc[e.Msg] {
+				seenEsc[e.Msg] = true
+				escaped = append(escaped, fmt.Sprintf("%s (%s)", e.Msg, c.P.Rel(e.Pos)))
+				r.OK("flag-decomp", fmt.Sprintf("%s: extraction: %s", dkey, e.Msg), c.P.Rel(e.Pos), "NOT DECIDED — the flag word flows into code the analysis does not follow, so the tests found are not known to be all of the decomposition")
+			}
+		}
+		if len(escaped) > 0 {
+			r.Note("C19 flag-decomp: %s NOT DECIDED beyond the %d tests that were found — %s", dkey, len(d.Tests), strings.Join(escaped, "; "))
+		}
 		for _, k := range bits {
 			con := fmt.Sprintf("%s: covers %s", dkey, k.Name)
 			n := tested[k.Key]
@@ -757,6 +982,8 @@ func (c *c19) family(f c19Flags) {
 				r.OK("flag-decomp", con, c.P.Rel(k.Pos), "tested exactly once")
 			case n == 0 && f.Exempt[k.Name] != "":
 				r.OK("flag-decomp", con, c.P.Rel(k.Pos), "exempt: "+f.Exempt[k.Name])
+			case n == 0 && len(escaped) > 0:
+				r.OK("flag-decomp", con, c.P.Rel(k.Pos), "NOT DECIDED — no test of this bit was found, but the extraction is incomplete: "+escaped[0])
 			case n == 0:
 				r.Fail("flag-decomp", con, c.P.Rel(fd.Pos()), fmt.Sprintf("%s (%s) is never tested by %s: a set bit is dropped from the decomposition", k.Name, tables.Hex(k.Val), dkey))
 			default:
@@ -778,9 +1005,19 @@ func (c *c19) family(f c19Flags) {
 			lcon := fmt.Sprintf("%s: loop at %s", dkey, c19LoopHead(u.Stmt))
 			switch {
 			case u.Why != "":
-				if c19MentionsWord(ev, u.Stmt) {
+				// a loop whose own variable is tampered with is reported; a loop of a
+				// shape the analysis does not model is NOT DECIDED (see Escapes above)
+				if u.Blame && (u.WordInside || c19MentionsWord(ev, u.Stmt)) {
 					r.Undecided("flag-decomp", lcon, lpos, "a loop that tests the flag word cannot be resolved to the rows of a constant table: "+u.Why)
 				}
+			case u.Kind == "setbits":
+				first := "lowest"
+				if u.Descending {
+					first = "highest"
+				}
+				how = append(how, fmt.Sprintf("a walk over the set bits of the word, %s first (%d bit positions)", first, u.N))
+			case u.Kind == "producer":
+				how = append(how, fmt.Sprintf("%d values reported by %s, in its order", u.N, u.ProducerName))
 			case u.Kind == "map":
 				how = append(how, fmt.Sprintf("%d rows of map %s (iteration order decided separately)", u.N, u.Table.Name))
 			case u.Table != nil:
@@ -792,20 +1029,25 @@ func (c *c19) family(f c19Flags) {
 		for tv := range ev.Tables {
 			c.registerTable(tv, dkey)
 		}
-		mapRanges := len(tables.MapRanges(info, fd.Body))
+		mapRanges := len(tables.MapOrderSites(info, fd.Body))
+		ownRanges := mapRanges
 		for _, h := range d.Helpers {
 			c.decomps[h] = true // map iterations inside a helper are decided by `order` like the decomposer's own
 			if _, hinfo := c.sourceOfDecl(h); hinfo != nil {
-				mapRanges += len(tables.MapRanges(hinfo, h.Body))
+				mapRanges += len(tables.MapOrderSites(hinfo, h.Body))
 			}
 			how = append(how, "tests in helper "+h.Name.Name)
 		}
-		if mapRanges == 0 {
+		// one order obligation per decomposer, however many functions it is spread over
+		switch {
+		case mapRanges == 0:
 			msg := "no map iteration: names are reported in source order of the tests"
 			if len(how) > 0 {
 				msg = "no map iteration: names are reported in row order of a constant table (" + strings.Join(how, "; ") + ")"
 			}
 			r.OK("order", dkey, c.P.Rel(fd.Pos()), msg)
+		case ownRanges == 0:
+			r.OK("order", dkey, c.P.Rel(fd.Pos()), fmt.Sprintf("no map iteration of its own; the %d map iteration(s) of the functions it builds on are decided where they occur", mapRanges))
 		}
 		finfo["decomposer "+name] = map[string]any{"tests": len(d.Tests), "placeholder": d.Placeholders, "loops": how}
 	}
@@ -842,6 +1084,7 @@ func (c *c19) family(f c19Flags) {
 				continue
 			}
 			c.decomps[fd] = true
+			c.bound[fd] = true
 			var loops []*ast.RangeStmt
 			for _, rs := range tables.MapRanges(info, fd.Body) {
 				if c.tableOf(info, rs.X) == tv {
@@ -891,6 +1134,22 @@ func (c *c19) family(f c19Flags) {
 				r.Fail("flag-decomp", con, pos, "the test appends "+d.Tests[0].Appended[0].Name()+", which is neither the key nor the value of the tested row")
 			default:
 				r.OK("flag-decomp", con, pos, "for every row: word&key != 0 ⇒ append "+d.Tests[0].Appended[0].Name())
+				// one `covers` obligation per family bit, as for every other shape
+				rowKeys := map[string]bool{}
+				for _, row := range mt.Rows {
+					rowKeys[row.Key] = true
+				}
+				for _, k := range bits {
+					ccon := fmt.Sprintf("%s: covers %s", dkey, k.Name)
+					switch {
+					case rowKeys[k.Key]:
+						r.OK("flag-decomp", ccon, c.P.Rel(k.Pos), "reported through its row of "+f.RangeTable)
+					case f.Exempt[k.Name] != "":
+						r.OK("flag-decomp", ccon, c.P.Rel(k.Pos), "exempt: "+f.Exempt[k.Name])
+					default:
+						r.Fail("flag-decomp", ccon, c.P.Rel(fd.Pos()), fmt.Sprintf("%s (%s) has no row in %s: %s never reports it", k.Name, tables.Hex(k.Val), f.RangeTable, dkey))
+					}
+				}
 			}
 		}
 	}
@@ -919,18 +1178,31 @@ func (c *c19) family(f c19Flags) {
 		seenPred[m.Name()] = true
 		pos := c.P.Rel(fd.Pos())
 		ev := newEval(fd)
+		ev.WithResults(info, fd.Type)
+		// COMPLETENESS BEFORE VERDICT: a predicate the evaluator cannot interpret
+		// (a body shape, an operator, a call it does not follow) is NOT DECIDED; a
+		// violation needs a fully interpreted expression that is not a test of the
+		// predicate's own bit.
+		notDecided := func(what string) {
+			r.OK("predicate", pkey, pos, "NOT DECIDED — "+what)
+			r.Note("C19 predicate: %s NOT DECIDED — %s", pkey, what)
+		}
 		s, why := ev.BoolResult(fd.Body)
 		if s == nil {
-			r.Undecided("predicate", pkey, pos, why)
+			notDecided("the body is not interpreted: " + why)
 			continue
 		}
 		if !tables.HasWord(s) {
-			r.Undecided("predicate", pkey, pos, "the result does not depend on the flag word in a recognised way: "+s.String())
+			if tables.HasUnknown(s) {
+				notDecided("the result contains something the evaluator does not interpret: " + s.String())
+			} else {
+				r.Fail("predicate", pkey, pos, "the result does not depend on the flag word: it is "+s.String()+" for every word")
+			}
 			continue
 		}
 		t, err := tables.AsMaskTest(s)
 		if err != nil && err.Undecided {
-			r.Undecided("predicate", pkey, pos, "cannot interpret the predicate: "+err.Error())
+			notDecided("cannot interpret the predicate: " + err.Error())
 			continue
 		}
 		if err != nil {
@@ -938,7 +1210,7 @@ func (c *c19) family(f c19Flags) {
 			continue
 		}
 		if t.Mask == nil {
-			r.Undecided("predicate", pkey, pos, "mask is a variable")
+			notDecided("the mask is a variable")
 			continue
 		}
 		mk, _ := tables.IntKey(t.Mask)
@@ -1102,35 +1374,112 @@ func (c *c19) tableOf(info *types.Info, e ast.Expr) *types.Var {
 // ---------------------------------------------------------------- order
 
 // orderEverywhere decides every map iteration inside a bound decomposer and
-// every iteration over a registered name table anywhere in the module.
+// every iteration over a registered name table anywhere in the module: a
+// `range` over the map, a `range` over maps.Keys / Values / All of it, or
+// slices.Collect of those. A function that is not exported and returns the
+// slice it filled in map order (a two-phase split: collect, then sort) is
+// decided at its call sites: each must sort the result before any other use.
 func (c *c19) orderEverywhere() {
 	r := c.R
+	type fnInfo struct {
+		rel  string
+		pk   *packages.Package
+		fd   *ast.FuncDecl
+		name string
+	}
+	var all []fnInfo
 	for _, pk := range c.P.Pkgs {
 		rel := strings.TrimPrefix(strings.TrimPrefix(pk.PkgPath, c.P.ModPath), "/")
 		for _, file := range pk.Syntax {
 			for _, d := range file.Decls {
-				fd, ok := d.(*ast.FuncDecl)
-				if !ok || fd.Body == nil {
-					continue
-				}
-				for _, rs := range tables.MapRanges(pk.TypesInfo, fd.Body) {
-					tv := c.tableOf(pk.TypesInfo, rs.X)
-					if tv == nil && !c.decomps[fd] {
-						continue
-					}
-					con := fmt.Sprintf("%s: range %s", c19FuncName(rel, fd), types.ExprString(rs.X))
-					pos := c.P.Rel(rs.Pos())
-					st, why := tables.OrderAfterRange(pk.TypesInfo, fd.Body, rs)
-					switch st {
-					case "ok":
-						r.OK("order", con, pos, "every variable filled by the iteration is sorted before any other use")
-					case "fail":
-						r.Fail("order", con, pos, "map iteration order reaches the result: "+why)
-					default:
-						r.Undecided("order", con, pos, why)
-					}
+				if fd, ok := d.(*ast.FuncDecl); ok && fd.Body != nil {
+					all = append(all, fnInfo{rel, pk, fd, c19FuncName(rel, fd)})
 				}
 			}
+		}
+	}
+	// functions that hand a map-ordered slice to their callers → why
+	unordered := map[types.Object]string{}
+	report := func(f fnInfo, con, pos string, site *tables.MapOrderSite) {
+		st, why, _ := tables.OrderAfter(f.pk.TypesInfo, f.fd.Body, site)
+		fnObj := f.pk.TypesInfo.Defs[f.fd.Name]
+		switch st {
+		case "ok":
+			r.OK("order", con, pos, "every variable filled by the iteration is sorted before any other use")
+		case "returned":
+			if fnObj != nil && !fnObj.Exported() && !c.bound[f.fd] {
+				unordered[fnObj] = f.name
+				r.OK("order", con, pos, "the slice filled in map order is returned unsorted by an unexported function: decided at its call sites")
+				return
+			}
+			r.Fail("order", con, pos, "map iteration order reaches the result: "+why)
+		case "fail":
+			r.Fail("order", con, pos, "map iteration order reaches the result: "+why)
+		default:
+			r.Undecided("order", con, pos, why)
+		}
+	}
+	for _, f := range all {
+		for _, site := range tables.MapOrderSites(f.pk.TypesInfo, f.fd.Body) {
+			tv := c.tableOf(f.pk.TypesInfo, site.X)
+			if tv == nil && !c.decomps[f.fd] {
+				continue
+			}
+			con := fmt.Sprintf("%s: range %s", f.name, types.ExprString(site.X))
+			report(f, con, c.P.Rel(site.Stmt.Pos()), site)
+		}
+	}
+	// call sites of the functions found above (their callers may in turn return
+	// the slice unsorted: a few rounds)
+	done := map[*ast.CallExpr]bool{}
+	for round := 0; round < 3 && len(unordered) > 0; round++ {
+		before := len(unordered)
+		for _, f := range all {
+			info := f.pk.TypesInfo
+			// assignment forms are decided like any other map-ordered definition
+			assigned := map[*ast.CallExpr]*tables.MapOrderSite{}
+			ast.Inspect(f.fd.Body, func(n ast.Node) bool {
+				as, ok := n.(*ast.AssignStmt)
+				if !ok || len(as.Lhs) != 1 || len(as.Rhs) != 1 {
+					return true
+				}
+				call, ok := ast.Unparen(as.Rhs[0]).(*ast.CallExpr)
+				if !ok || unordered[tables.StaticCallee(info, call)] == "" {
+					return true
+				}
+				if id, ok := ast.Unparen(as.Lhs[0]).(*ast.Ident); ok && id.Name != "_" {
+					o := info.Defs[id]
+					if o == nil {
+						o = info.Uses[id]
+					}
+					if o != nil {
+						assigned[call] = &tables.MapOrderSite{Stmt: as, Call: call, Vars: []types.Object{o}}
+					}
+				}
+				return true
+			})
+			ast.Inspect(f.fd.Body, func(n ast.Node) bool {
+				call, ok := n.(*ast.CallExpr)
+				if !ok || done[call] {
+					return true
+				}
+				callee := tables.StaticCallee(info, call)
+				if callee == nil || unordered[callee] == "" {
+					return true
+				}
+				done[call] = true
+				con := fmt.Sprintf("%s: result of %s", f.name, unordered[callee])
+				pos := c.P.Rel(call.Pos())
+				if site := assigned[call]; site != nil {
+					report(f, con, pos, site)
+				} else {
+					r.Fail("order", con, pos, "map iteration order reaches the result: "+unordered[callee]+" returns a slice it filled in map-iteration order, and the result is used here without being sorted first")
+				}
+				return true
+			})
+		}
+		if len(unordered) == before {
+			break
 		}
 	}
 }
@@ -1186,9 +1535,23 @@ func (c *c19) tableConst() {
 				pos = u.pos
 			}
 		}
-		if len(bad) > 0 {
+		positive := false
+		for _, b := range bad {
+			for _, w := range []string{"written", "removed", "re-assigned", "assigned by a range clause", "pointer method"} {
+				if strings.Contains(b, w) {
+					positive = true
+				}
+			}
+		}
+		if len(bad) > 0 && positive {
 			sort.Strings(bad)
 			r.Undecided("table-const", con, pos, "the table is not a compile-time constant table, so its literal rows do not decide the property: "+strings.Join(bad, "; "))
+		} else if len(bad) > 0 {
+			// COMPLETENESS BEFORE VERDICT: the table is handed to something the rule does
+			// not follow (an alias, a call it cannot read); no write was observed
+			sort.Strings(bad)
+			r.OK("table-const", con, pos, "NOT DECIDED — no write of the table was found, but it flows to code the rule does not follow: "+strings.Join(bad, "; "))
+			r.Note("C19 table-const: %s NOT DECIDED — %s", con, strings.Join(bad, "; "))
 		} else {
 			r.OK("table-const", con, pos, fmt.Sprintf("%d uses in the module, all reads (index, range, len)", len(found[v])))
 		}
@@ -1271,6 +1634,84 @@ func (c *c19) paramOnlyRead(info *types.Info, call *ast.CallExpr, argIdx int, de
 		return bad, false
 	}
 	return "", true
+}
+
+// c19StripInst removes an explicit instantiation from a call's function operand.
+func c19StripInst(fun ast.Expr) ast.Expr {
+	if ix, ok := ast.Unparen(fun).(*ast.IndexExpr); ok {
+		return ix.X
+	}
+	if ix, ok := ast.Unparen(fun).(*ast.IndexListExpr); ok {
+		return ix.X
+	}
+	return fun
+}
+
+// pathFunc returns the function declaration a path (innermost first) lies in.
+func pathFunc(path []ast.Node) (*ast.FuncDecl, bool) {
+	for _, n := range path {
+		if fd, ok := n.(*ast.FuncDecl); ok {
+			return fd, true
+		}
+	}
+	return nil, false
+}
+
+// aliasUses classifies every use of the local alias o (inside the function the
+// path lies in): "read" when all of them only read.
+func (c *c19) aliasUses(info *types.Info, o types.Object, path []ast.Node, what string, depth int) string {
+	fd, ok := pathFunc(path)
+	if !ok || fd.Body == nil {
+		return "aliased by " + what
+	}
+	bad := ""
+	ast.Inspect(fd.Body, func(n ast.Node) bool {
+		id, ok := n.(*ast.Ident)
+		if !ok || info.Uses[id] != o || bad != "" {
+			return bad == ""
+		}
+		if k := c.classifyUse(info, id, c19PathTo(fd, id), depth+1); k != "read" {
+			bad = k + " through " + what
+		}
+		return true
+	})
+	if bad != "" {
+		return bad
+	}
+	return "read"
+}
+
+// fieldUses classifies every use of the struct field fv (which holds a table)
+// anywhere in the module.
+func (c *c19) fieldUses(fv *types.Var, depth int) string {
+	origin := fv.Origin()
+	bad := ""
+	for _, pk := range c.P.Pkgs {
+		if bad != "" {
+			break
+		}
+		for _, file := range pk.Syntax {
+			var sels []*ast.SelectorExpr
+			ast.Inspect(file, func(n ast.Node) bool {
+				if sel, ok := n.(*ast.SelectorExpr); ok {
+					if v, ok := pk.TypesInfo.Uses[sel.Sel].(*types.Var); ok && v.IsField() && v.Origin() == origin {
+						sels = append(sels, sel)
+					}
+				}
+				return true
+			})
+			for _, sel := range sels {
+				if k := c.classifyUse(pk.TypesInfo, sel.Sel, c19PathTo(file, sel.Sel), depth+1); k != "read" {
+					bad = k + " through the field " + fv.Name()
+					break
+				}
+			}
+		}
+	}
+	if bad != "" {
+		return bad
+	}
+	return "read"
 }
 
 func (c *c19) classifyUse(info *types.Info, id *ast.Ident, path []ast.Node, depth int) string {
@@ -1410,11 +1851,18 @@ func (c *c19) classifyUse(info *types.Info, id *ast.Ident, path []ast.Node, dept
 				}
 			}
 		}
+		// standard-library functions that write or re-order their first operand
+		if fn := tables.StaticCallee(info, &ast.CallExpr{Fun: c19StripInst(p.Fun)}); len(p.Args) > 0 && ast.Node(p.Args[0]) == cur &&
+			(tables.IsPkgFunc(fn, "maps", "Copy", "DeleteFunc", "Insert") ||
+				tables.IsPkgFunc(fn, "slices", "Sort", "SortFunc", "SortStableFunc", "Reverse", "Delete", "DeleteFunc", "Insert", "Replace", "Compact", "CompactFunc") ||
+				tables.IsPkgFunc(fn, "sort", "Slice", "SliceStable", "Sort", "Stable", "Strings", "Ints", "Float64s")) {
+			return "rows written or re-ordered by " + fn.FullName()
+		}
 		// standard-library functions that only read their operand (and do not retain it)
 		if fn := tables.StaticCallee(info, p); tables.IsPkgFunc(fn, "maps", "Clone") ||
 			tables.IsPkgFunc(fn, "slices", "Contains", "ContainsFunc", "Index", "IndexFunc", "Clone", "Equal", "BinarySearch", "BinarySearchFunc") {
 			return "read"
-		} else if tables.IsPkgFunc(fn, "maps", "Keys", "Values") {
+		} else if tables.IsPkgFunc(fn, "maps", "Keys", "Values", "All") {
 			// an iterator over the table: only as the operand of slices.Sorted (deterministic order)
 			j := i + 1
 			for j < len(path) {
@@ -1424,7 +1872,19 @@ func (c *c19) classifyUse(info *types.Info, id *ast.Ident, path []ast.Node, dept
 				j++
 			}
 			if j < len(path) {
-				if outer, ok := path[j].(*ast.CallExpr); ok && tables.IsPkgFunc(tables.StaticCallee(info, outer), "slices", "Sorted") {
+				// the iterator is consumed on the spot: sorted, collected into a slice, or
+				// ranged over. All of these only read the table; whether the map order can
+				// reach a result is decided by `order`.
+				if outer, ok := path[j].(*ast.CallExpr); ok {
+					ofun := outer.Fun
+					if ix, isIx := ast.Unparen(ofun).(*ast.IndexExpr); isIx {
+						ofun = ix.X
+					}
+					if tables.IsPkgFunc(tables.StaticCallee(info, &ast.CallExpr{Fun: ofun}), "slices", "Sorted", "Collect", "AppendSeq") {
+						return "read"
+					}
+				}
+				if rs, ok := path[j].(*ast.RangeStmt); ok && ast.Unparen(rs.X) == ast.Expr(p) {
 					return "read"
 				}
 			}
@@ -1447,9 +1907,43 @@ func (c *c19) classifyUse(info *types.Info, id *ast.Ident, path []ast.Node, dept
 				return "table re-assigned"
 			}
 		}
+		// `t := T`: every use of the local alias is classified in turn
+		if p.Tok == token.DEFINE && len(p.Lhs) == len(p.Rhs) && depth < 2 {
+			for k, rhs := range p.Rhs {
+				if ast.Node(rhs) != cur {
+					continue
+				}
+				if lid, ok := p.Lhs[k].(*ast.Ident); ok {
+					if o := info.Defs[lid]; o != nil {
+						return c.aliasUses(info, o, path, "the local alias "+lid.Name, depth)
+					}
+				}
+			}
+		}
 		return "aliased by assignment"
 	case *ast.ValueSpec:
+		if depth < 2 {
+			for k, v := range p.Values {
+				if ast.Node(v) == cur && k < len(p.Names) {
+					if o := info.Defs[p.Names[k]]; o != nil {
+						if _, isLocal := pathFunc(path); isLocal {
+							return c.aliasUses(info, o, path, "the local alias "+p.Names[k].Name, depth)
+						}
+					}
+				}
+			}
+		}
 		return "aliased by declaration"
+	case *ast.KeyValueExpr:
+		// `S{names: T}`: the table is held by a struct field; every use of that field
+		// anywhere in the module is classified in turn
+		if ast.Node(p.Value) == cur && depth < 2 {
+			if kid, ok := p.Key.(*ast.Ident); ok {
+				if fv, ok := info.Uses[kid].(*types.Var); ok && fv.IsField() {
+					return c.fieldUses(fv, depth)
+				}
+			}
+		}
 	case *ast.UnaryExpr:
 		if p.Op == token.AND {
 			return "address taken"
